@@ -54,8 +54,6 @@ fn dbg_re_d() {
     h::dbg_announce_n2_re(true, 1);
 }
 
-#[cfg(verif_pb_c01)]
-include!(env!("VERIF_PLAYBACK_FILE"));
 #[kani::proof]
 #[kani::unwind(5)]
 #[kani::stub(crossbeam_channel::Sender::try_send, aquatic_udp::swarm::verif_harness::log_try_send)]
